@@ -19,6 +19,10 @@ impl CostModel for MatrixConnector {
         &&& self.data.len() == self.num_left * self.num_right
         &&& 1 <= self.num_left <= 0x10000 && 1 <= self.num_right <= 0x10000
     }
+    open spec fn conn_shape(&self) -> bool {
+        &&& self.data.len() == self.num_left * self.num_right
+        &&& self.num_left <= 0x10000 && self.num_right <= 0x10000
+    }
     open spec fn spec_num_left(&self) -> int { self.num_left as int }
     open spec fn spec_num_right(&self) -> int { self.num_right as int }
     /// matrix.def semantics: the cell of (right_id, left_id) is data[left_id * num_right + right_id]
@@ -27,4 +31,6 @@ impl CostModel for MatrixConnector {
     }
     open spec fn spec_cost_bound(&self) -> int { 32768 }
     proof fn lemma_conn_wf(&self) {}
+    proof fn lemma_shape_of_wf(&self) {}
+    proof fn lemma_wf_of_shape(&self) {}
 }
